@@ -207,3 +207,134 @@ Proof.
     split; [constructor; [discriminate|exact Hn]|].
     split; [exact Hpr|]. split; [rewrite Hts; reflexivity|exact Hend].
 Qed.
+
+Lemma strip_stars_parses p ts : Parses p ts ->
+  exists k p1 ts1, strip_stars p = (Nat.ltb 0 k, p1) /\ p = repeat ch_star k ++ p1
+                   /\ ts = repeat TStar k ++ ts1 /\ Parses p1 ts1 /\ (forall r, p1 <> ch_star :: r).
+Proof.
+  induction 1 as [|p ts HP IH|p ts HP IH|c p ts HP IH|c p ts Hm HP IH|q neg q0 lo hi q1 rs q' ts Hs HR HT HP IH].
+  - exists 0%nat, [], []. repeat split; [constructor|discriminate].
+  - destruct IH as (k & p1 & ts1 & Hss & Hp & Hts & Hp1 & Hns).
+    exists (S k), p1, ts1. cbn [strip_stars repeat app]. replace (ch_star =? ch_star) with true by reflexivity.
+    rewrite Hss. cbn [snd]. repeat split; try assumption; [rewrite Hp; reflexivity|rewrite Hts; reflexivity].
+  - exists 0%nat, (ch_qm :: p), (TAny :: ts). repeat split; [apply P_any; exact HP|discriminate].
+  - exists 0%nat, (ch_bsl :: c :: p), (TLit c :: ts). repeat split; [apply P_esc; exact HP|discriminate].
+  - exists 0%nat, (c :: p), (TLit c :: ts). unfold is_meta in Hm. cbn [strip_stars].
+    replace (c =? ch_star) with false by lia. repeat split; [apply P_lit; [unfold is_meta; lia|exact HP]|].
+    intros r E. injection E as E _. lia.
+  - exists 0%nat, (ch_lbr :: q), (TClass neg ((lo, hi) :: rs) :: ts). repeat split; [eapply P_class; eassumption|discriminate].
+Qed.
+
+(** ** plain names: every term of a star-free list takes exactly one byte *)
+Lemma plain_cons c s : plain (c :: s) <-> (c < 128 /\ c <> Separator) /\ plain s.
+Proof. unfold plain. split; [intros H; inversion H; auto|intros [H1 H2]; constructor; assumption]. Qed.
+
+Lemma plain_app a b : plain (a ++ b) <-> plain a /\ plain b.
+Proof. unfold plain. apply Forall_app. Qed.
+
+Lemma plain_no_sep s : plain s -> no_sep s.
+Proof. unfold plain, no_sep. intros H. eapply Forall_impl; [|exact H]. intros a [_ Ha]. exact Ha. Qed.
+
+Lemma plain_contains_sep s : plain s -> contains_sep s = false.
+Proof.
+  induction s as [|c s IH]; [reflexivity|]. intros H. apply plain_cons in H. destruct H as [[_ Hc] Hs].
+  unfold contains_sep in *. cbn [existsb]. rewrite (IH Hs). replace (c =? Separator) with false by lia. reflexivity.
+Qed.
+
+Lemma PM_plain_some items : no_star items -> forall s t, plain s -> PM items s = Some t ->
+  exists s1, s = s1 ++ t /\ length s1 = length items /\ Matches items s1.
+Proof.
+  induction items as [|it items IH]; intros Hn s t Hp H.
+  - cbn in H. inversion H; subst. exists []. repeat split. constructor.
+  - inversion Hn as [|? ? Hit Hn']; subst. destruct s as [|c s]; [discriminate|].
+    apply plain_cons in Hp. destruct Hp as [[Hc Hsep] Hp].
+    cbn [PM] in H. rewrite (decodeRune_ascii c s Hc) in H. cbn [fst snd skipn] in H.
+    destruct it as [| |b|neg rs]; [congruence| | |].
+    + replace (c =? Separator) with false in H by lia.
+      destruct (IH Hn' s t Hp H) as (s1 & -> & Hl & Hm). exists (c :: s1). repeat split; [cbn; lia|].
+      eapply M_any; [exact Hsep|apply decodeRune_ascii; exact Hc|exact Hm].
+    + destruct (b =? c) eqn:Eb; [|discriminate]. assert (b = c) by lia. subst.
+      destruct (IH Hn' s t Hp H) as (s1 & -> & Hl & Hm). exists (c :: s1). repeat split; [cbn; lia|].
+      apply M_lit. exact Hm.
+    + destruct (Bool.eqb (in_ranges c rs) neg) eqn:Er; [discriminate|].
+      destruct (IH Hn' s t Hp H) as (s1 & -> & Hl & Hm). exists (c :: s1). repeat split; [cbn; lia|].
+      eapply M_class; [apply decodeRune_ascii; exact Hc| |exact Hm].
+      destruct (in_ranges c rs), neg; simpl in *; congruence.
+Qed.
+
+Lemma PM_plain_complete items : forall s1 t, plain (s1 ++ t) -> Matches items s1 -> no_star items ->
+  PM items (s1 ++ t) = Some t.
+Proof.
+  induction items as [|it items IH]; intros s1 t Hp Hm Hn.
+  - inversion Hm; subst. reflexivity.
+  - inversion Hn as [|? ? Hit Hn']; subst.
+    inversion Hm as [|? ? ? ? ?|ts c s r n Hs Hd Hm'|ts c s Hm'|ts neg rs c s r n Hd Hr Hm']; subst; [congruence| | |];
+      cbn [app] in Hp; apply plain_cons in Hp; destruct Hp as [[Hc Hsep] Hp];
+      cbn [app PM]; rewrite ?(decodeRune_ascii c _ Hc); cbn [fst snd skipn].
+    + rewrite (decodeRune_ascii c s Hc) in Hd. injection Hd as Er En; subst r n. cbn [skipn] in Hm'.
+      replace (c =? Separator) with false by lia. apply IH; assumption.
+    + replace (c =? c) with true by lia. apply IH; assumption.
+    + rewrite (decodeRune_ascii c s Hc) in Hd. injection Hd as Er En; subst r n. cbn [skipn] in Hm'.
+      rewrite Hr. destruct neg; cbn; apply IH; assumption.
+Qed.
+
+Lemma Matches_len items s : no_star items -> plain s -> Matches items s -> length s = length items.
+Proof.
+  intros Hn Hp Hm. pose proof (PM_plain_complete items s [] ltac:(rewrite app_nil_r; exact Hp) Hm Hn) as H.
+  rewrite app_nil_r in H. destruct (PM_plain_some items Hn s [] Hp H) as (s1 & E & Hl & _).
+  rewrite app_nil_r in E. subst. exact Hl.
+Qed.
+
+Lemma Matches_app_plain items : forall s1 ts t, no_star items -> plain (s1 ++ t) ->
+  Matches items s1 -> Matches ts t -> Matches (items ++ ts) (s1 ++ t).
+Proof.
+  induction items as [|it items IH]; intros s1 ts t Hn Hp Hm Ht.
+  - inversion Hm; subst. exact Ht.
+  - inversion Hn as [|? ? Hit Hn']; subst.
+    inversion Hm as [|? ? ? ? ?|ts0 c s r n Hs Hd Hm'|ts0 c s Hm'|ts0 neg rs c s r n Hd Hr Hm']; subst; [congruence| | |];
+      cbn [app] in Hp |- *; apply plain_cons in Hp; destruct Hp as [[Hc Hsep] Hp].
+    + rewrite (decodeRune_ascii c s Hc) in Hd. injection Hd as Er En; subst r n. cbn [skipn] in Hm'.
+      eapply M_any; [exact Hsep|apply decodeRune_ascii; exact Hc|]. cbn [skipn]. apply IH; assumption.
+    + apply M_lit. apply IH; assumption.
+    + rewrite (decodeRune_ascii c s Hc) in Hd. injection Hd as Er En; subst r n. cbn [skipn] in Hm'.
+      eapply M_class; [apply decodeRune_ascii; exact Hc|exact Hr|]. cbn [skipn]. apply IH; assumption.
+Qed.
+
+Lemma Matches_split_plain items : forall ts s, no_star items -> plain s -> Matches (items ++ ts) s ->
+  exists s1 t, s = s1 ++ t /\ Matches items s1 /\ Matches ts t.
+Proof.
+  induction items as [|it items IH]; intros ts s Hn Hp Hm.
+  - exists [], s. repeat split; [constructor|exact Hm].
+  - inversion Hn as [|? ? Hit Hn']; subst. cbn [app] in Hm.
+    inversion Hm as [|? ? ? ? ?|ts0 c s0 r n Hs Hd Hm'|ts0 c s0 Hm'|ts0 neg rs c s0 r n Hd Hr Hm']; subst; [congruence| | |];
+      apply plain_cons in Hp; destruct Hp as [[Hc Hsep] Hp].
+    + rewrite (decodeRune_ascii c s0 Hc) in Hd. injection Hd as Er En; subst r n. cbn [skipn] in Hm'.
+      destruct (IH ts s0 Hn' Hp Hm') as (s1 & t & -> & H1 & H2). exists (c :: s1), t. repeat split; [|exact H2].
+      eapply M_any; [exact Hsep|apply decodeRune_ascii; exact Hc|exact H1].
+    + destruct (IH ts s0 Hn' Hp Hm') as (s1 & t & -> & H1 & H2). exists (c :: s1), t. repeat split; [|exact H2].
+      apply M_lit. exact H1.
+    + rewrite (decodeRune_ascii c s0 Hc) in Hd. injection Hd as Er En; subst r n. cbn [skipn] in Hm'.
+      destruct (IH ts s0 Hn' Hp Hm') as (s1 & t & -> & H1 & H2). exists (c :: s1), t. repeat split; [|exact H2].
+      eapply M_class; [apply decodeRune_ascii; exact Hc|exact Hr|exact H1].
+Qed.
+
+(** ** stars *)
+Lemma Matches_stars_intro k ts u t : no_sep u -> Matches ts t -> Matches (repeat TStar (S k) ++ ts) (u ++ t).
+Proof.
+  intros Hu Ht. cbn [repeat app]. apply M_star; [exact Hu|].
+  induction k as [|k IH]; [exact Ht|]. cbn [repeat app]. apply (M_star _ [] t); [constructor|exact IH].
+Qed.
+
+Lemma Matches_stars_elim k ts s : Matches (repeat TStar k ++ ts) s -> exists u t, s = u ++ t /\ Matches ts t.
+Proof.
+  revert s. induction k as [|k IH]; intros s H.
+  - exists [], s. split; [reflexivity|exact H].
+  - cbn [repeat app] in H. inversion H as [|ts0 s1 s2 Hs1 Hs2| | |]; subst. destruct (IH _ Hs2) as (u & t & -> & Ht).
+    exists (s1 ++ u), t. split; [rewrite app_assoc; reflexivity|exact Ht].
+Qed.
+
+Lemma star_absorb ts w t : no_sep w -> Matches (TStar :: ts) t -> Matches (TStar :: ts) (w ++ t).
+Proof.
+  intros Hw H. inversion H as [|ts0 s1 s2 Hs1 Hs2| | |]; subst. rewrite app_assoc. apply M_star; [|assumption].
+  unfold no_sep in *. apply Forall_app. split; assumption.
+Qed.
